@@ -5,7 +5,7 @@
 //! format, loaded by the real loaders under every prior content x rayon pool size, and the lexical
 //! quads in the store are compared with prior ∪ triples(document) as read back by the reference reader.
 use crate::infra::{guarded, Ctx, PropDef, ShardOut};
-use crate::reference::loader::{self as rl, Format, LexQuad, Line, Term};
+use crate::reference::loader::{self as rl, Format, Layout, LexQuad, Line, Link, Term};
 use kolibrie::sparql_database::SparqlDatabase;
 use serde_json::{json, Value};
 use shared::dataset_index::GraphId;
@@ -14,13 +14,15 @@ use std::collections::{BTreeSet, HashMap};
 pub const DEF: PropDef = PropDef {
     id: "C13",
     level: "exploration",
-    rule: "documents = one abstract line list (filler line i: <http://e/s{i}> <http://e/p{i%3}> (<http://e/o{i%7}> | \"v{i%5}\") .) of n lines, n in {0,1,2} ∪ {998..1003} ∪ {1998..2002} ∪ {3001} (loader chunk size 1000, read from parse_ntriples/parse_n3; thorough adds 2003, 2998..3003, 4001, and 8190..8194 for RDF/XML whose batch size is 8192 triples), with ONE distinguished line of each kind {none, @prefix used only by later lines, @prefix RE-BINDING (x: bound on line 0 and used by every line before the distinguished line, which binds x: to another namespace used by every later line), term first seen 3 lines earlier (= previous chunk at offsets 0..+2), duplicate of the triple 3 lines earlier, lang-tagged literal, datatyped literal, literal with escapes, quoted triples (literal inside; nested), comment, blank line, IRI containing #, blank-node subject} placed at EVERY line index b-2..b+2 around EVERY chunk boundary b in {1000,2000,3000,..} that exists in the document (every index for n<=2); each abstract document is rendered to N-Triples, N-Quads, N-Quads with a graph column, Turtle, N3, RDF/XML (a format takes part iff every line is expressible in the subset its loader supports; skips are counted) x prior content {empty, one triple sharing no term, one triple sharing predicate+object, the document's first triple, non-empty dictionary without triples} x rayon pool size {1,2,4,16} (ThreadPool::install around the loader). QUICK tier reductions (thorough runs the full product, except pool sizes {2,16} instead of all four for the loaders that never touch the installed pool on documents of more than 1003 lines): documents up to the first boundary (n <= 1003) run all kinds, all five priors, all four pool sizes for the two loaders that run rayon tasks on the installed pool (parse_ntriples, parse_n3) and one pool size for the others (parse_turtle and parse_nquads_and_add are sequential, parse_rdf uses its own threads); documents beyond it (n >= 1998) keep every offset of every boundary with the chunk-sensitive kinds {@prefix, @prefix re-binding, earlier term, duplicate} (+ {comment, blank line} at later boundaries), priors {empty, first triple}, pool sizes {1,4}. Oracle per load: (a) lexical quads (decode_any over all_quads) and named graphs after the load = prior ∪ quads the reference reader finds in the text; (b) dictionary still a bijection, next_id above every id, prior ids unchanged; (c) every load that satisfied (a) shows the same quads as the N-Triples load of the same abstract list. non-trivial = the document has >= 2 triples and (spans > 1 chunk or prior dictionary non-empty or has a distinguished line); distinct = distinct (n, kind, position, prior, pool, format). Interleavings INSIDE the rayon pool are not enumerable (work stealing is not interceptable); pool sizes are. Verified by reading: parse_ntriples chunk tasks are pure functions of their lines (they only call the &self tokenisers parse_ntriples_parts/clean_ntriples_term, no dictionary access), collect() keeps chunk order and encode_triples encodes sequentially; parse_n3 chunk tasks each own a private SparqlDatabase and are merged sequentially (by id - the defect found); parse_turtle and parse_nquads_and_add never use rayon; parse_rdf encodes sequentially while reading and only ships batches of 8192 encoded triples to crossbeam threads whose results are inserted sequentially.",
+    rule: "documents = one abstract line list (filler line i: <http://e/s{i}> <http://e/p{i%3}> (<http://e/o{i%7}> | \"v{i%5}\") .) of n lines, n in {0,1,2} ∪ {998..1003} ∪ {1998..2002} ∪ {3001} (loader chunk size 1000, read from parse_ntriples/parse_n3; thorough adds 2003, 2998..3003, 4001), with ONE distinguished line of each kind {none, @prefix used only by later lines, @prefix RE-BINDING (x: bound on line 0 and used by every line before the distinguished line, which binds x: to another namespace used by every later line), term first seen 3 lines earlier (= previous chunk at offsets 0..+2), duplicate of the triple 3 lines earlier, lang-tagged literal, datatyped literal, literal with escapes, quoted triples (literal inside; nested), comment, blank line, IRI containing #, blank-node subject, STRADDLING statement (Turtle/N3: line p is `s p0 o ;` and line p+1 is `    p1 \"v\" .` — one statement over two physical lines, so that at offset -1 the chunk boundary falls INSIDE the statement; other formats: two ordinary lines; RDF/XML: one indented rdf:Description with two property elements, the layout generate_rdf_xml writes), one-line predicate list `s p0 o ; p1 \"w\" .` and one-line object list `s p0 o , \"w\" .` (Turtle/N3; the next physical line is empty so that line numbers stay aligned; other formats two lines), literal with inner white space and statement punctuation \"a  b . c ; d , e # f\" (crosses the N3 statement tokeniser and n3_comment_start's in-literal branch), rdfs:label / rdfs:subClassOf property with text content (RDF/XML: the Start-element special cases of parse_rdf, namespace declared through an `rdfs` prefix line)} placed at EVERY line index b-2..b+2 around EVERY chunk boundary b in {1000,2000,3000,..} that exists in the document (every index for n<=2), plus per size one ALL-IRI document (no literal anywhere, so that the N3 cross-format comparison is not covered by the known literal-token finding); each abstract document is rendered to N-Triples, N-Quads, N-Quads with a graph column, Turtle, N3, RDF/XML (loaded through parse_rdf AND, from a temporary file, through parse_rdf_from_file) (a format takes part iff every line is expressible in the subset its loader supports; skips are counted) x prior content {empty, one triple sharing no term, one triple sharing predicate+object, the document's first triple, non-empty dictionary without triples, HISTORY (an earlier parse_turtle of another document that leaves db.prefixes = {x: -> http://other/} and a quoted triple in the store, then an earlier parse_nquads_and_add that puts the document's first triple into <http://e/g1> and another quad into <http://e/g2>), SAME DOCUMENT LOADED TWICE (the first load through the same loader is the prior)} x rayon pool size {1,2,4,16} (ThreadPool::install around the loader). LAYOUT family: the documents of 2 and 1001 lines (every kind, every position) are also rendered with CRLF line ends, TAB separators, no terminator on the last line, and no white space before the closing dot (`<o>.`), loaded by the five line loaders (prior empty, pool sizes {1,4} for parse_ntriples/parse_n3). RDF/XML batch boundary (8192 triples per batch): quick loads documents of 8193 lines (plain; duplicate at 8192) through N-Triples, parse_rdf and parse_rdf_from_file; thorough 8190..8194 with kinds at 8190..8193 and 16385. QUICK tier reductions (thorough runs the full product, except pool sizes {2,16} instead of all four for the loaders that never touch the installed pool on documents of more than 1003 lines): documents up to the first boundary (n <= 1003) run all kinds (rdfs kinds only for n in {1,2,1001}), the five simple priors (HISTORY and TWICE for n in {1,2,1001}; parse_rdf_from_file for n in {0,1,2,1001}), all four pool sizes for the two loaders that run rayon tasks on the installed pool (parse_ntriples, parse_n3) and one pool size for the others (parse_turtle and parse_nquads_and_add are sequential, parse_rdf uses its own threads); documents beyond it (n >= 1998) keep every offset of every boundary with the chunk-sensitive kinds {@prefix, @prefix re-binding, earlier term, duplicate, straddling statement} (+ {comment, blank line} at later boundaries), priors {empty, first triple}, pool sizes {1,4}. Oracle per load: (a) lexical quads (decode_any over all_quads) and named graphs after the load = quads and named graphs OBSERVED BEFORE the load ∪ quads the reference reader finds in the text (for the five simple priors the observation before the load must itself equal the constructed prior, else machinery error); (b) dictionary still a bijection, next_id above every id, prior ids unchanged; (c) every load that satisfied (a) shows the same quads as the N-Triples load of the same abstract list under the same prior. A load that fails (a) with a distinguished line is re-run with the same line(s) moved to index 500 (mid-chunk): the outcome is recorded as tag mid_chunk_control=pass|fail (pass = the loader reads this very shape correctly when no chunk boundary is near, i.e. the failure depends on how the document is split). non-trivial = the document has >= 2 triples and (spans > 1 chunk or prior dictionary non-empty or has a distinguished line or a non-plain layout); distinct = distinct (n, kind, position, layout, prior, pool, format). Interleavings INSIDE the rayon pool are not enumerable (work stealing is not interceptable); pool sizes are. Verified by reading: parse_ntriples chunk tasks are pure functions of their lines (they only call the &self tokenisers parse_ntriples_parts/clean_ntriples_term, no dictionary access), collect() keeps chunk order and encode_triples encodes sequentially; parse_n3 chunk tasks each own a private SparqlDatabase and are merged sequentially; parse_turtle and parse_nquads_and_add never use rayon; parse_rdf encodes sequentially while reading and only ships batches of 8192 encoded triples to crossbeam threads whose results are inserted sequentially; parse_rdf_from_file is sequential with its own 8192 loop.",
     assumptions: &[
         "reference model: harness/src/reference/loader.rs (generator + independent reader, self-tested on hand-written documents); expected quads are computed from the rendered TEXT by the reference reader and cross-checked against the abstract list",
         "lexical forms: IRI bare, blank node _:label, plain literal = decoded value, \"v\"^^<dt> -> v, \"v\"@en -> v@en (the forms N-Triples/N-Quads loaders implement); N3 is checked against the literal token form parse_n3 documents (quotes, raw escapes, @lang, ^^datatype) and the resulting difference to all other formats is reported by the cross-format clause",
-        "RDF/XML subset = rdf:Description/@rdf:about + property elements with text or rdf:resource (no blank nodes, xml:lang, rdf:datatype, quoted triples); N3 subset has no quoted triples; documents outside a format's subset skip that format (counted)",
+        "RDF/XML subset = rdf:Description/@rdf:about + property elements with text or rdf:resource, one or two per description (no blank nodes, xml:lang, rdf:datatype, quoted triples, default namespace); N3 subset has no quoted triples; documents outside a format's subset skip that format (counted)",
+        "statement punctuation: `;` and `,` lists and a statement continued on the next line are part of the Turtle and N3 subset because both loaders implement them explicitly (parse_turtle keeps its statement state across lines, parse_n3 accumulates lines until one ends in `.`; parse_statement has `;` and `,` cases); layouts (CRLF, TAB, missing final newline, `<o>.`) are lexical freedoms of all four line grammars",
         "thread schedules inside rayon's pool are not enumerated (not interceptable); pool sizes 1,2,4,16 are; parse_rdf uses its own crossbeam threads + the global rayon pool (RAYON_NUM_THREADS=2), so the pool size does not reach it",
-        "escape literal of the distinguished line keeps its special characters in the middle: literal CONTENT is C14's quantifier, not C13's",
+        "escape literal of the distinguished line keeps its special characters in the middle: literal CONTENT is C14's quantifier, not C13's (the inner-white-space literal is in C13 because N3 has no writer and therefore no C14 leg)",
+        "the HISTORY and TWICE priors are taken as OBSERVED (whatever the earlier loads left in the store is 'the previous quads'); only the effect of the load under test is judged",
     ],
     run,
     replay,
@@ -29,6 +31,9 @@ pub const DEF: PropDef = PropDef {
 };
 
 pub const CHUNK: usize = 1000;
+/// index the distinguished line(s) are moved to for the mid-chunk control run
+pub const CONTROL_POS: usize = 500;
+pub const RDFS_NS: &str = "http://www.w3.org/2000/01/rdf-schema#";
 
 #[derive(Clone, Copy, PartialEq, Eq, Debug, Hash)]
 pub enum Kind {
@@ -45,9 +50,16 @@ pub enum Kind {
     EmptyLine,
     HashIri,
     BlankSubj,
+    StraddleSemi,
+    InlineSemi,
+    InlineComma,
+    SpaceLit,
+    RdfsProp,
+    /// no distinguished line: every filler object is an IRI
+    AllIri,
 }
 
-pub const KINDS: [Kind; 13] = [
+pub const KINDS: [Kind; 19] = [
     Kind::None,
     Kind::Prefix,
     Kind::PrefixRebind,
@@ -61,6 +73,12 @@ pub const KINDS: [Kind; 13] = [
     Kind::EmptyLine,
     Kind::HashIri,
     Kind::BlankSubj,
+    Kind::StraddleSemi,
+    Kind::InlineSemi,
+    Kind::InlineComma,
+    Kind::SpaceLit,
+    Kind::RdfsProp,
+    Kind::AllIri,
 ];
 
 impl Kind {
@@ -70,6 +88,14 @@ impl Kind {
     fn parse(s: &str) -> Option<Kind> {
         KINDS.iter().copied().find(|k| k.name() == s)
     }
+    /// kinds without a distinguished position (one document per size)
+    fn positionless(&self) -> bool {
+        matches!(self, Kind::None | Kind::AllIri)
+    }
+    /// kinds whose distinguished content occupies lines p and p+1
+    fn two_lines(&self) -> bool {
+        matches!(self, Kind::StraddleSemi | Kind::InlineSemi | Kind::InlineComma)
+    }
 }
 
 #[derive(Clone, Copy, PartialEq, Eq, Debug, Hash)]
@@ -77,15 +103,18 @@ pub enum Loader {
     Fmt(Format),
     /// N-Quads with a graph column on every odd line (not part of the cross-format comparison)
     NQuadsNamed,
+    /// the RDF/XML text written to a temporary file and loaded through parse_rdf_from_file
+    RdfXmlFile,
 }
 
-pub const LOADERS: [Loader; 6] = [
+pub const LOADERS: [Loader; 7] = [
     Loader::Fmt(Format::NTriples),
     Loader::Fmt(Format::NQuads),
     Loader::Fmt(Format::Turtle),
     Loader::Fmt(Format::N3),
     Loader::Fmt(Format::RdfXml),
     Loader::NQuadsNamed,
+    Loader::RdfXmlFile,
 ];
 
 impl Loader {
@@ -93,6 +122,7 @@ impl Loader {
         match self {
             Loader::Fmt(f) => f.name(),
             Loader::NQuadsNamed => "nquads_named",
+            Loader::RdfXmlFile => "rdfxml_file",
         }
     }
     fn parse(s: &str) -> Option<Loader> {
@@ -102,7 +132,11 @@ impl Loader {
         match self {
             Loader::Fmt(f) => *f,
             Loader::NQuadsNamed => Format::NQuads,
+            Loader::RdfXmlFile => Format::RdfXml,
         }
+    }
+    fn is_xml(&self) -> bool {
+        self.format() == Format::RdfXml
     }
 }
 
@@ -113,9 +147,12 @@ pub enum Prior {
     SharesTerm,
     SameTriple,
     DictOnly,
+    History,
+    SameDocTwice,
 }
 
-pub const PRIORS: [Prior; 5] = [Prior::Empty, Prior::Disjoint, Prior::SharesTerm, Prior::SameTriple, Prior::DictOnly];
+pub const PRIORS: [Prior; 7] = [Prior::Empty, Prior::Disjoint, Prior::SharesTerm, Prior::SameTriple, Prior::DictOnly, Prior::History, Prior::SameDocTwice];
+pub const SIMPLE_PRIORS: [Prior; 5] = [Prior::Empty, Prior::Disjoint, Prior::SharesTerm, Prior::SameTriple, Prior::DictOnly];
 
 impl Prior {
     fn name(&self) -> String {
@@ -124,9 +161,30 @@ impl Prior {
     fn parse(s: &str) -> Option<Prior> {
         PRIORS.iter().copied().find(|k| k.name() == s)
     }
+    /// built by earlier runs of real loaders (judged as observed)
+    fn is_history(&self) -> bool {
+        matches!(self, Prior::History | Prior::SameDocTwice)
+    }
 }
 
 pub const POOLS: [usize; 4] = [1, 2, 4, 16];
+
+fn layout_name(l: Layout) -> String {
+    format!("{:?}", l)
+}
+
+fn layout_parse(s: &str) -> Option<Layout> {
+    rl::LAYOUTS.iter().copied().find(|l| layout_name(*l) == s)
+}
+
+/// one abstract document of the enumeration
+#[derive(Clone, Copy, PartialEq, Eq, Debug, Hash)]
+pub struct Spec {
+    pub n: usize,
+    pub kind: Kind,
+    pub pos: Option<usize>,
+    pub layout: Layout,
+}
 
 fn iri(s: String) -> Term {
     Term::Iri(s)
@@ -134,21 +192,44 @@ fn iri(s: String) -> Term {
 
 pub fn filler(i: usize) -> Line {
     let o = if i % 2 == 0 { iri(format!("http://e/o{}", i % 7)) } else { Term::lit(&format!("v{}", i % 5)) };
-    Line::Triple { s: iri(format!("http://e/s{}", i)), p: iri(format!("http://e/p{}", i % 3)), o, g: None, pname: false }
+    Line::Triple { s: iri(format!("http://e/s{}", i)), p: iri(format!("http://e/p{}", i % 3)), o, g: None, pname: false, link: Link::None }
+}
+
+fn filler_all_iri(i: usize) -> Line {
+    Line::Triple { s: iri(format!("http://e/s{}", i)), p: iri(format!("http://e/p{}", i % 3)), o: iri(format!("http://e/o{}", i % 7)), g: None, pname: false, link: Link::None }
+}
+
+/// can a document of n lines carry `kind` at index p?
+fn placeable(n: usize, kind: Kind, p: usize) -> bool {
+    if p >= n {
+        return false;
+    }
+    if kind == Kind::Duplicate && p == 0 {
+        return false; // nothing earlier to duplicate: identical to the plain document
+    }
+    if kind.two_lines() && p + 1 >= n {
+        return false;
+    }
+    true
 }
 
 /// the abstract document of `n` lines with the distinguished line of `kind` at index `pos`
 pub fn build_doc(n: usize, kind: Kind, pos: Option<usize>) -> Vec<Line> {
+    if kind == Kind::AllIri {
+        return (0..n).map(filler_all_iri).collect();
+    }
     let mut lines: Vec<Line> = (0..n).map(filler).collect();
     let Some(p) = pos else { return lines };
-    if p >= n {
+    if !placeable(n, kind, p) {
         return lines;
     }
     let subj = iri(format!("http://e/s{}", p));
     let p0 = iri("http://e/p0".to_string());
-    let t = |o: Term| Line::Triple { s: subj.clone(), p: p0.clone(), o, g: None, pname: false };
+    let p1 = iri("http://e/p1".to_string());
+    let t = |o: Term| Line::Triple { s: subj.clone(), p: p0.clone(), o, g: None, pname: false, link: Link::None };
+    let linked = |p: &Term, o: Term, link: Link| Line::Triple { s: subj.clone(), p: p.clone(), o, g: None, pname: false, link };
     match kind {
-        Kind::None => {}
+        Kind::None | Kind::AllIri => {}
         Kind::Prefix => {
             lines[p] = Line::Prefix { name: "x".into(), iri: "http://e/".into() };
             for l in lines.iter_mut().skip(p + 1) {
@@ -176,7 +257,7 @@ pub fn build_doc(n: usize, kind: Kind, pos: Option<usize>) -> Vec<Line> {
         Kind::EarlyTerm => {
             lines[p] = t(iri("http://e/early".to_string()));
             if p >= 3 {
-                lines[p - 3] = Line::Triple { s: iri(format!("http://e/s{}", p - 3)), p: iri("http://e/p1".to_string()), o: iri("http://e/early".to_string()), g: None, pname: false };
+                lines[p - 3] = Line::Triple { s: iri(format!("http://e/s{}", p - 3)), p: iri("http://e/p1".to_string()), o: iri("http://e/early".to_string()), g: None, pname: false, link: Link::None };
             }
         }
         Kind::Duplicate => {
@@ -192,12 +273,33 @@ pub fn build_doc(n: usize, kind: Kind, pos: Option<usize>) -> Vec<Line> {
         Kind::Quoted => {
             let inner = Term::quoted(iri("http://e/a".into()), iri("http://e/q".into()), Term::lit("v"));
             let nested = Term::quoted(Term::quoted(iri("http://e/a".into()), iri("http://e/q".into()), iri("http://e/b".into())), iri("http://e/q".into()), iri("http://e/c".into()));
-            lines[p] = Line::Triple { s: inner, p: p0.clone(), o: nested, g: None, pname: false };
+            lines[p] = Line::Triple { s: inner, p: p0.clone(), o: nested, g: None, pname: false, link: Link::None };
         }
         Kind::Comment => lines[p] = Line::Comment(format!("comment at {}", p)),
         Kind::EmptyLine => lines[p] = Line::Empty,
         Kind::HashIri => lines[p] = t(iri("http://e/x#frag".to_string())),
-        Kind::BlankSubj => lines[p] = Line::Triple { s: Term::Blank(format!("b{}", p)), p: p0.clone(), o: iri("http://e/o1".to_string()), g: None, pname: false },
+        Kind::BlankSubj => lines[p] = Line::Triple { s: Term::Blank(format!("b{}", p)), p: p0.clone(), o: iri("http://e/o1".to_string()), g: None, pname: false, link: Link::None },
+        Kind::StraddleSemi => {
+            lines[p] = linked(&p0, iri("http://e/o1".to_string()), Link::OpenNl);
+            lines[p + 1] = linked(&p1, Term::lit("v"), Link::ContNl);
+        }
+        Kind::InlineSemi => {
+            lines[p] = linked(&p0, iri("http://e/o1".to_string()), Link::OpenSemi);
+            lines[p + 1] = linked(&p1, Term::lit("w"), Link::Absorbed);
+        }
+        Kind::InlineComma => {
+            lines[p] = linked(&p0, iri("http://e/o1".to_string()), Link::OpenComma);
+            lines[p + 1] = linked(&p0, Term::lit("w"), Link::Absorbed);
+        }
+        Kind::SpaceLit => lines[p] = t(Term::lit("a  b . c ; d , e # f")),
+        Kind::RdfsProp => {
+            // the namespace is declared through a prefix line (root-element xmlns:rdfs in RDF/XML)
+            if p >= 1 {
+                lines[0] = Line::Prefix { name: "rdfs".into(), iri: RDFS_NS.into() };
+            }
+            let local = if p % 2 == 0 { "label" } else { "subClassOf" };
+            lines[p] = Line::Triple { s: subj.clone(), p: iri(format!("{}{}", RDFS_NS, local)), o: Term::lit("lbl"), g: None, pname: true, link: Link::None };
+        }
     }
     lines
 }
@@ -252,20 +354,53 @@ pub fn sizes(thorough: bool) -> Vec<usize> {
     v
 }
 
-/// all (n, kind, pos) documents in the global enumeration order
-pub fn documents(thorough: bool) -> Vec<(usize, Kind, Option<usize>)> {
+/// sizes on which the quick tier runs the extra priors, the rdfs kinds, parse_rdf_from_file and the layouts
+fn quick_focus_size(n: usize) -> bool {
+    matches!(n, 1 | 2 | 1001)
+}
+
+/// all plain-layout documents in the global enumeration order
+pub fn documents(thorough: bool) -> Vec<Spec> {
     let mut v = Vec::new();
     for n in sizes(thorough) {
-        v.push((n, Kind::None, None));
+        v.push(Spec { n, kind: Kind::None, pos: None, layout: Layout::Plain });
+        if n >= 1 {
+            v.push(Spec { n, kind: Kind::AllIri, pos: None, layout: Layout::Plain });
+        }
         for p in positions(n) {
-            for k in KINDS.iter().skip(1) {
-                if *k == Kind::Duplicate && p == 0 {
-                    continue; // nothing earlier to duplicate: identical to the plain document
+            for k in KINDS.iter().filter(|k| !k.positionless()) {
+                if !placeable(n, *k, p) {
+                    continue;
                 }
                 if !thorough && n > CHUNK + 3 && !quick_kind_for_large(*k, p) {
                     continue;
                 }
-                v.push((n, *k, Some(p)));
+                if !thorough && *k == Kind::RdfsProp && !quick_focus_size(n) {
+                    continue;
+                }
+                v.push(Spec { n, kind: *k, pos: Some(p), layout: Layout::Plain });
+            }
+        }
+    }
+    v
+}
+
+/// the layout family: documents of 2 and 1001 lines (thorough: also 2001), every kind and position, every non-plain layout
+pub fn layout_documents(thorough: bool) -> Vec<Spec> {
+    let mut v = Vec::new();
+    let mut ns = vec![2usize, 1001];
+    if thorough {
+        ns.push(2001);
+    }
+    for n in ns {
+        for layout in rl::LAYOUTS.iter().copied().filter(|l| *l != Layout::Plain) {
+            v.push(Spec { n, kind: Kind::None, pos: None, layout });
+            for p in positions(n) {
+                for k in KINDS.iter().filter(|k| !k.positionless()) {
+                    if placeable(n, *k, p) {
+                        v.push(Spec { n, kind: *k, pos: Some(p), layout });
+                    }
+                }
             }
         }
     }
@@ -273,13 +408,13 @@ pub fn documents(thorough: bool) -> Vec<(usize, Kind, Option<usize>)> {
 }
 
 /// Quick tier, documents beyond the first boundary (n >= 1998): every offset of every boundary is kept, with
-/// the chunk-sensitive kinds only — around the first boundary {Prefix, EarlyTerm, Duplicate} (all 11 kinds are
-/// run there by the documents of 999..1002 lines), around later boundaries also {Comment, EmptyLine}.
+/// the chunk-sensitive kinds only — around the first boundary {Prefix, EarlyTerm, Duplicate, StraddleSemi} (all kinds are
+/// run there by the documents of 999..1003 lines), around later boundaries also {Comment, EmptyLine}.
 fn quick_kind_for_large(k: Kind, p: usize) -> bool {
     if p <= CHUNK + 2 {
-        matches!(k, Kind::Prefix | Kind::PrefixRebind | Kind::EarlyTerm | Kind::Duplicate)
+        matches!(k, Kind::Prefix | Kind::PrefixRebind | Kind::EarlyTerm | Kind::Duplicate | Kind::StraddleSemi)
     } else {
-        matches!(k, Kind::Prefix | Kind::PrefixRebind | Kind::EarlyTerm | Kind::Duplicate | Kind::Comment | Kind::EmptyLine)
+        matches!(k, Kind::Prefix | Kind::PrefixRebind | Kind::EarlyTerm | Kind::Duplicate | Kind::StraddleSemi | Kind::Comment | Kind::EmptyLine)
     }
 }
 
@@ -290,11 +425,11 @@ fn first_iri_triple(lines: &[Line]) -> Option<(String, String, String)> {
     })
 }
 
-/// prior content: (triples, extra dictionary-only terms)
+/// prior content of the five simple priors: (triples, extra dictionary-only terms)
 fn prior_content(prior: Prior, lines: &[Line]) -> (Vec<(String, String, String)>, Vec<String>) {
     let z = ("http://z/s".to_string(), "http://z/p".to_string(), "zlit".to_string());
     match prior {
-        Prior::Empty => (vec![], vec![]),
+        Prior::Empty | Prior::History | Prior::SameDocTwice => (vec![], vec![]),
         Prior::Disjoint => (vec![z], vec![]),
         Prior::SharesTerm => (vec![("http://z/s".into(), "http://e/p0".into(), "http://e/o0".into())], vec![]),
         Prior::SameTriple => (vec![first_iri_triple(lines).unwrap_or(z)], vec![]),
@@ -307,6 +442,16 @@ pub struct Obs {
     quads: BTreeSet<LexQuad>,
     named: BTreeSet<String>,
     dict_error: Option<String>,
+}
+
+/// observation before and after the load under test
+#[derive(Clone, Debug, PartialEq, Eq, Hash)]
+pub struct Run {
+    before_quads: BTreeSet<LexQuad>,
+    before_named: BTreeSet<String>,
+    prefixes_before: usize,
+    quoted_before: usize,
+    after: Obs,
 }
 
 fn dictionary_check(db: &SparqlDatabase, before: &HashMap<String, u32>) -> Option<String> {
@@ -370,8 +515,33 @@ impl Pools {
     }
 }
 
+static TMP_COUNTER: std::sync::atomic::AtomicU64 = std::sync::atomic::AtomicU64::new(0);
+
+/// run the loader under test on `text`
+fn load(db: &mut SparqlDatabase, loader: Loader, text: &str, pool: &rayon::ThreadPool) {
+    if loader == Loader::RdfXmlFile {
+        let k = TMP_COUNTER.fetch_add(1, std::sync::atomic::Ordering::Relaxed);
+        let path = std::env::temp_dir().join(format!("vcheck-c13-{}-{}.rdf", std::process::id(), k));
+        std::fs::write(&path, text).expect("write temporary RDF/XML file");
+        let p = path.to_string_lossy().to_string();
+        let r = std::panic::catch_unwind(std::panic::AssertUnwindSafe(|| pool.install(|| db.parse_rdf_from_file(&p))));
+        let _ = std::fs::remove_file(&path);
+        if let Err(e) = r {
+            std::panic::resume_unwind(e);
+        }
+        return;
+    }
+    pool.install(|| match loader.format() {
+        Format::NTriples => db.parse_ntriples_and_add(text),
+        Format::NQuads => db.parse_nquads_and_add(text),
+        Format::Turtle => db.parse_turtle(text),
+        Format::N3 => db.parse_n3(text),
+        Format::RdfXml => db.parse_rdf(text),
+    });
+}
+
 /// One execution of the real loader from scratch. Err = panic of the subject.
-fn execute(loader: Loader, text: &str, prior: Prior, lines: &[Line], pool: &rayon::ThreadPool) -> Result<Obs, String> {
+fn execute(loader: Loader, text: &str, prior: Prior, lines: &[Line], pool: &rayon::ThreadPool) -> Result<Run, String> {
     let (triples, terms) = prior_content(prior, lines);
     guarded(|| {
         let mut db = SparqlDatabase::new();
@@ -381,26 +551,28 @@ fn execute(loader: Loader, text: &str, prior: Prior, lines: &[Line], pool: &rayo
         for t in &terms {
             db.dictionary.write().unwrap().encode(t);
         }
+        match prior {
+            Prior::History => {
+                // an earlier Turtle load of ANOTHER document (leaves a prefix x: -> http://other/ and a quoted
+                // triple behind), then an earlier N-Quads load into two named graphs
+                db.parse_turtle("@prefix x: <http://other/> .\nx:hs x:hp << x:a x:q \"hv\" >> .\nx:hs x:hp \"hlit\" .\n");
+                let (s, p, o) = first_iri_triple(lines).unwrap_or(("http://z/s".into(), "http://z/p".into(), "http://z/o".into()));
+                db.parse_nquads_and_add(&format!("<{}> <{}> <{}> <http://e/g1> .\n<http://z/s> <http://z/p> \"zlit\" <http://e/g2> .\n", s, p, o));
+            }
+            Prior::SameDocTwice => load(&mut db, loader, text, pool),
+            _ => {}
+        }
         let before: HashMap<String, u32> = db.dictionary.read().unwrap().string_to_id.clone();
-        pool.install(|| match loader.format() {
-            Format::NTriples => db.parse_ntriples_and_add(text),
-            Format::NQuads => db.parse_nquads_and_add(text),
-            Format::Turtle => db.parse_turtle(text),
-            Format::N3 => db.parse_n3(text),
-            Format::RdfXml => db.parse_rdf(text),
-        });
-        observe(&db, &before)
+        let b = observe(&db, &before);
+        let prefixes_before = db.prefixes.len();
+        let quoted_before = db.quoted_triple_store.read().unwrap().id_to_components.len();
+        load(&mut db, loader, text, pool);
+        Run { before_quads: b.quads, before_named: b.named, prefixes_before, quoted_before, after: observe(&db, &before) }
     })
 }
 
-fn expected_for(loader: Loader, prior: Prior, lines: &[Line], doc_quads: &BTreeSet<LexQuad>) -> (BTreeSet<LexQuad>, BTreeSet<String>) {
-    let _ = loader;
-    let mut q = doc_quads.clone();
-    for (s, p, o) in prior_content(prior, lines).0 {
-        q.insert((s, p, o, None));
-    }
-    let named = q.iter().filter_map(|x| x.3.clone()).collect();
-    (q, named)
+fn simple_prior_quads(prior: Prior, lines: &[Line]) -> BTreeSet<LexQuad> {
+    prior_content(prior, lines).0.into_iter().map(|(s, p, o)| (s, p, o, None)).collect()
 }
 
 fn diff_detail(got: &BTreeSet<LexQuad>, exp: &BTreeSet<LexQuad>) -> String {
@@ -418,24 +590,36 @@ fn diff_detail(got: &BTreeSet<LexQuad>, exp: &BTreeSet<LexQuad>) -> String {
 }
 
 /// structural tags of a case (never derived from the observed result)
-fn tags(n: usize, kind: Kind, pos: Option<usize>, prior: Prior, pool: usize, loader: Loader, lines: &[Line]) -> Vec<String> {
+fn tags(spec: Spec, prior: Prior, pool: usize, loader: Loader, lines: &[Line]) -> Vec<String> {
+    let Spec { n, kind, pos, layout } = spec;
     let mut t = vec![format!("format={}", loader.name()), format!("prior={}", prior.name()), format!("pool={}", pool), format!("kind={}", kind.name())];
     t.push(if n > CHUNK { "lines>chunk".into() } else { "lines<=chunk".into() });
+    if layout != Layout::Plain {
+        t.push(format!("layout={}", layout_name(layout)));
+    }
     if prior != Prior::Empty {
         t.push("prior_dict_nonempty".into());
     }
-    if matches!(prior, Prior::Disjoint | Prior::SharesTerm | Prior::SameTriple) {
+    if matches!(prior, Prior::Disjoint | Prior::SharesTerm | Prior::SameTriple | Prior::History | Prior::SameDocTwice) {
         t.push("prior_db_nonempty".into());
+    }
+    if prior.is_history() {
+        t.push("prior_built_by_loaders".into());
     }
     let mut lit = false;
     let mut lang = false;
     let mut typed = false;
     let mut esc = false;
+    let mut inner_ws = false;
     let mut hash = false;
     let mut quoted = false;
     let mut blank = false;
+    let mut semi = false;
+    let mut comma = false;
+    let mut multi_line = false;
     let mut prefix_at: Option<usize> = None;
     let mut prefix_later_chunk = false;
+    let mut straddles_chunk = false;
     fn walk(t: &Term, hash: &mut bool, quoted: &mut bool, blank: &mut bool) {
         match t {
             Term::Iri(i) => *hash |= i.contains('#'),
@@ -452,16 +636,29 @@ fn tags(n: usize, kind: Kind, pos: Option<usize>, prior: Prior, pool: usize, loa
     for (i, l) in lines.iter().enumerate() {
         match l {
             Line::Prefix { .. } => prefix_at = Some(i),
-            Line::Triple { s, p, o, pname, .. } => {
+            Line::Triple { s, p, o, pname, link, .. } => {
                 if let Term::Lit { value, lang: l, dt } = o {
                     lit = true;
                     lang |= l.is_some();
                     typed |= dt.is_some();
                     esc |= rl::escape(value) != *value;
+                    inner_ws |= value.contains("  ") || value.contains(" . ") || value.contains(" ; ") || value.contains(" , ");
                 }
                 walk(s, &mut hash, &mut quoted, &mut blank);
                 walk(p, &mut hash, &mut quoted, &mut blank);
                 walk(o, &mut hash, &mut quoted, &mut blank);
+                match link {
+                    Link::OpenNl => {
+                        semi = true;
+                        multi_line = true;
+                        if (i + 1) % CHUNK == 0 {
+                            straddles_chunk = true;
+                        }
+                    }
+                    Link::OpenSemi => semi = true,
+                    Link::OpenComma => comma = true,
+                    _ => {}
+                }
                 if let (true, Some(pa)) = (*pname, prefix_at) {
                     if i / CHUNK > pa / CHUNK {
                         prefix_later_chunk = true;
@@ -471,16 +668,24 @@ fn tags(n: usize, kind: Kind, pos: Option<usize>, prior: Prior, pool: usize, loa
             _ => {}
         }
     }
+    // punctuation and multi-line statements only exist in the Turtle / N3 renderings
+    let punct = matches!(loader.format(), Format::Turtle | Format::N3);
     for (flag, name) in [
         (lit, "doc_has_literal_object"),
         (lang, "doc_has_lang_literal"),
         (typed, "doc_has_typed_literal"),
         (esc, "doc_has_escaped_literal"),
+        (inner_ws, "doc_has_literal_with_inner_ws_or_punctuation"),
         (hash, "doc_has_hash_in_iri"),
         (quoted, "doc_has_quoted_triple"),
         (blank, "doc_has_blank_node"),
         (prefix_at.is_some(), "doc_declares_prefix"),
         (prefix_later_chunk, "prefix_used_in_later_chunk"),
+        (semi && punct, "doc_has_predicate_list"),
+        (comma && punct, "doc_has_object_list"),
+        (multi_line && punct, "doc_has_multi_line_statement"),
+        (straddles_chunk && punct, "statement_straddles_chunk_boundary"),
+        ((semi || comma) && loader.is_xml(), "doc_has_multi_property_description"),
     ] {
         if flag {
             t.push(name.to_string());
@@ -492,8 +697,11 @@ fn tags(n: usize, kind: Kind, pos: Option<usize>, prior: Prior, pool: usize, loa
     t
 }
 
-fn case_json(n: usize, kind: Kind, pos: Option<usize>, prior: Prior, pool: usize, loader: Loader, cross: bool) -> Value {
-    let mut v = json!({"n": n, "kind": kind.name(), "pos": pos, "prior": prior.name(), "pool": pool, "format": loader.name()});
+fn case_json(spec: Spec, prior: Prior, pool: usize, loader: Loader, cross: bool) -> Value {
+    let mut v = json!({"n": spec.n, "kind": spec.kind.name(), "pos": spec.pos, "prior": prior.name(), "pool": pool, "format": loader.name()});
+    if spec.layout != Layout::Plain {
+        v["layout"] = json!(layout_name(spec.layout));
+    }
     if cross {
         v["cross_with"] = json!("ntriples");
     }
@@ -501,14 +709,18 @@ fn case_json(n: usize, kind: Kind, pos: Option<usize>, prior: Prior, pool: usize
 }
 
 /// Result of one absolute evaluation (loader run + comparison): list of (symptom, detail)
-fn judge(obs: &Result<Obs, String>, exp_q: &BTreeSet<LexQuad>, exp_named: &BTreeSet<String>) -> Vec<(&'static str, String)> {
+fn judge(run: &Result<Run, String>, doc_quads: &BTreeSet<LexQuad>) -> Vec<(&'static str, String)> {
     let mut f = Vec::new();
-    match obs {
+    match run {
         Err(msg) => f.push(("panic", format!("loader panicked: {}", msg))),
-        Ok(o) => {
-            if &o.quads != exp_q {
-                f.push(("wrong_quads", diff_detail(&o.quads, exp_q)));
-            } else if &o.named != exp_named {
+        Ok(r) => {
+            let exp_q: BTreeSet<LexQuad> = r.before_quads.union(doc_quads).cloned().collect();
+            let mut exp_named = r.before_named.clone();
+            exp_named.extend(doc_quads.iter().filter_map(|x| x.3.clone()));
+            let o = &r.after;
+            if o.quads != exp_q {
+                f.push(("wrong_quads", diff_detail(&o.quads, &exp_q)));
+            } else if o.named != exp_named {
                 f.push(("wrong_named_graphs", format!("named graphs {:?}, expected {:?}", o.named, exp_named)));
             }
             if let Some(e) = &o.dict_error {
@@ -518,7 +730,6 @@ fn judge(obs: &Result<Obs, String>, exp_q: &BTreeSet<LexQuad>, exp_named: &BTree
     }
     f
 }
-
 
 /// triage aid: with VCHECK_C13_DUMP=<path> every failing case is appended as one JSON line
 fn dump_failure(case: &Value, symptom: &str, tags: &[String], detail: &str) {
@@ -537,13 +748,14 @@ struct Rendered {
 }
 
 /// render + reference-read one document for one loader; None = not expressible; Err = machinery
-fn prepare(loader: Loader, lines: &[Line]) -> Result<Option<Rendered>, String> {
+fn prepare(loader: Loader, lines: &[Line], layout: Layout) -> Result<Option<Rendered>, String> {
     let d = doc_for(loader, lines);
     let f = loader.format();
     if !rl::document_expressible(&d, f) {
         return Ok(None);
     }
-    let text = rl::render(&d, f);
+    rl::links_well_formed(&d).map_err(|e| format!("generator built an ill-formed linked pair: {}", e))?;
+    let text = rl::render_with(&d, f, layout);
     let from_text = rl::expected_from_text(&text, f).map_err(|e| format!("reference reader failed on generated {} text: {}", f.name(), e))?;
     let from_abstract = rl::expected_quads(&d, f);
     if from_text != from_abstract {
@@ -551,102 +763,176 @@ fn prepare(loader: Loader, lines: &[Line]) -> Result<Option<Rendered>, String> {
     }
     if f != Format::RdfXml {
         let nlines = text.lines().count();
-        if nlines != lines.len() {
+        let ok = nlines == lines.len() || (layout == Layout::NoFinalNewline && nlines + 1 == lines.len());
+        if !ok {
             return Err(format!("{} rendering has {} physical lines for {} abstract lines", f.name(), nlines, lines.len()));
         }
     }
     Ok(Some(Rendered { loader, text, doc_quads: from_text }))
 }
 
-fn nontrivial_case(n: usize, kind: Kind, prior: Prior, doc_quads: &BTreeSet<LexQuad>) -> bool {
-    doc_quads.len() >= 2 && (n > CHUNK || prior != Prior::Empty || kind != Kind::None)
+fn nontrivial_case(spec: Spec, prior: Prior, doc_quads: &BTreeSet<LexQuad>) -> bool {
+    doc_quads.len() >= 2 && (spec.n > CHUNK || prior != Prior::Empty || spec.kind != Kind::None || spec.layout != Layout::Plain)
 }
 
 /// which pool sizes a loader is run under. Thorough: all four (two for the sequential loaders beyond the first boundary). Quick: all four for the
 /// two loaders that run rayon tasks on the installed pool (parse_ntriples, parse_n3) up to the first chunk
-/// boundary and {1,4} beyond it; one size for the loaders that (by reading) never touch the installed pool
-/// (parse_turtle, parse_nquads_and_add: sequential; parse_rdf: own threads + global pool).
-fn pool_sizes_for(thorough: bool, n: usize, loader: Loader) -> Vec<usize> {
+/// boundary and {1,4} beyond it (and in the layout family); one size for the loaders that (by reading) never touch the installed pool
+/// (parse_turtle, parse_nquads_and_add, parse_rdf_from_file: sequential; parse_rdf: own threads + global pool).
+fn pool_sizes_for(thorough: bool, spec: Spec, loader: Loader) -> Vec<usize> {
     let uses_installed_pool = matches!(loader, Loader::Fmt(Format::NTriples) | Loader::Fmt(Format::N3));
+    if spec.layout != Layout::Plain {
+        return if uses_installed_pool { vec![1, 4] } else { vec![2] };
+    }
+    let n = spec.n;
     if thorough {
         // full product, except that the loaders which never touch the installed pool get two of the four
         // sizes on the multi-chunk documents
         return if uses_installed_pool || n <= CHUNK + 3 { POOLS.to_vec() } else { vec![2, 16] };
     }
-    match loader {
-        Loader::Fmt(Format::NTriples) | Loader::Fmt(Format::N3) => {
-            if n <= CHUNK + 3 {
-                POOLS.to_vec()
-            } else {
-                vec![1, 4]
-            }
+    if uses_installed_pool {
+        if n <= CHUNK + 3 {
+            POOLS.to_vec()
+        } else {
+            vec![1, 4]
         }
-        _ => vec![2],
+    } else {
+        vec![2]
     }
 }
 
-/// prior contents: all five up to the first chunk boundary (and everywhere in thorough); two beyond it in quick
-fn priors_for(thorough: bool, n: usize) -> Vec<Prior> {
-    if thorough || n <= CHUNK + 3 {
-        PRIORS.to_vec()
+/// prior contents: the five simple ones up to the first chunk boundary (+ HISTORY and TWICE on the focus sizes; everything everywhere in thorough); two beyond it in quick
+fn priors_for(thorough: bool, spec: Spec) -> Vec<Prior> {
+    if spec.layout != Layout::Plain {
+        return if thorough { vec![Prior::Empty, Prior::History] } else { vec![Prior::Empty] };
+    }
+    if thorough {
+        return PRIORS.to_vec();
+    }
+    if spec.n <= CHUNK + 3 {
+        if quick_focus_size(spec.n) {
+            PRIORS.to_vec()
+        } else {
+            SIMPLE_PRIORS.to_vec()
+        }
     } else {
         vec![Prior::Empty, Prior::SameTriple]
     }
 }
 
+fn loaders_for(thorough: bool, spec: Spec) -> Vec<Loader> {
+    if spec.layout != Layout::Plain {
+        // RDF/XML is always written plain
+        return LOADERS.iter().copied().filter(|l| !l.is_xml()).collect();
+    }
+    if thorough || spec.n == 0 || quick_focus_size(spec.n) {
+        LOADERS.to_vec()
+    } else {
+        LOADERS.iter().copied().filter(|l| *l != Loader::RdfXmlFile).collect()
+    }
+}
+
+/// mid-chunk control of a failing positional case: the same kind at index CONTROL_POS of a document of the same size.
+/// Some(true) = control satisfies the absolute clause, Some(false) = it fails too, None = no control exists
+fn mid_chunk_control(spec: Spec, loader: Loader, prior: Prior, pool: &rayon::ThreadPool) -> Option<bool> {
+    let p = spec.pos?;
+    if p == CONTROL_POS || p == CONTROL_POS + 1 || !placeable(spec.n, spec.kind, CONTROL_POS) || CONTROL_POS + 3 >= spec.n {
+        return None;
+    }
+    let lines = build_doc(spec.n, spec.kind, Some(CONTROL_POS));
+    let r = prepare(loader, &lines, spec.layout).ok()??;
+    let run = execute(loader, &r.text, prior, &lines, pool);
+    Some(judge(&run, &r.doc_quads).is_empty())
+}
+
 /// evaluate loaders x priors x pools for one abstract document
-#[allow(clippy::too_many_arguments)]
-fn run_document(ctx: &Ctx, out: &mut ShardOut, pools: &Pools, n: usize, kind: Kind, pos: Option<usize>, loaders: &[Loader], priors: &[Prior], pool_sizes: &dyn Fn(Loader) -> Vec<usize>) {
-    let lines = build_doc(n, kind, pos);
+fn run_document(ctx: &Ctx, out: &mut ShardOut, pools: &Pools, spec: Spec, loaders: &[Loader], priors: &[Prior], pool_sizes: &dyn Fn(Loader) -> Vec<usize>) {
+    let lines = build_doc(spec.n, spec.kind, spec.pos);
     let mut rendered = Vec::new();
     for l in loaders {
-        match prepare(*l, &lines) {
+        match prepare(*l, &lines, spec.layout) {
             Ok(Some(r)) => rendered.push(r),
             Ok(None) => out.count(&format!("skipped_inexpressible.{}", l.name()), 1),
             Err(e) => {
-                out.machinery_errors.push(format!("n={} kind={:?} pos={:?}: {}", n, kind, pos, e));
+                out.machinery_errors.push(format!("{:?}: {}", spec, e));
                 return;
             }
+        }
+    }
+    // vacuity counters: what this document crosses
+    if let Some(p) = spec.pos {
+        if spec.kind == Kind::StraddleSemi && (p + 1) % CHUNK == 0 {
+            out.count("documents_with_statement_straddling_a_chunk_boundary", 1);
         }
     }
     for &prior in priors {
         // (loader, pool, observation) of every load that satisfied the absolute clause
         let mut passed: Vec<(Loader, usize, Obs)> = Vec::new();
         for r in &rendered {
-            let (exp_q, exp_named) = expected_for(r.loader, prior, &lines, &r.doc_quads);
             for pool in pool_sizes(r.loader) {
-                let case = case_json(n, kind, pos, prior, pool, r.loader, false);
+                let case = case_json(spec, prior, pool, r.loader, false);
                 if let Some(p) = &ctx.progress {
                     p.mark(&case.to_string());
                 }
-                let obs = execute(r.loader, &r.text, prior, &lines, pools.get(pool));
+                let run = execute(r.loader, &r.text, prior, &lines, pools.get(pool));
                 out.evaluations += 1;
                 out.count(&format!("loads.{}", r.loader.name()), 1);
-                if nontrivial_case(n, kind, prior, &r.doc_quads) {
-                    out.nontrivial(&(n, kind, pos, prior, pool, r.loader));
+                out.count(&format!("loads_by_kind.{}", spec.kind.name()), 1);
+                if prior.is_history() {
+                    out.count(&format!("loads_by_prior.{}", prior.name()), 1);
                 }
-                if let Ok(o) = &obs {
-                    out.outcome(&o.quads);
-                    out.max("max_quads_in_store", o.quads.len() as u64);
+                if spec.layout != Layout::Plain {
+                    out.count(&format!("loads_by_layout.{}", layout_name(spec.layout)), 1);
                 }
-                let fails = judge(&obs, &exp_q, &exp_named);
-                if fails.is_empty() {
-                    if let Ok(o) = obs {
-                        passed.push((r.loader, pool, o));
+                if nontrivial_case(spec, prior, &r.doc_quads) {
+                    out.nontrivial(&(spec, prior, pool, r.loader));
+                }
+                if let Ok(x) = &run {
+                    out.outcome(&x.after.quads);
+                    out.max("max_quads_in_store", x.after.quads.len() as u64);
+                    if x.prefixes_before > 0 {
+                        out.count("loads_into_db_with_declared_prefixes", 1);
                     }
-                    if out.samples.len() < 4 && n >= 2 && kind != Kind::None && prior != Prior::Empty {
-                        out.sample(json!({"case": case, "first_lines": r.text.lines().take(3).collect::<Vec<_>>(), "expected_quads": exp_q.len()}));
+                    if x.quoted_before > 0 {
+                        out.count("loads_into_db_with_quoted_triples", 1);
+                    }
+                    if !x.before_named.is_empty() {
+                        out.count("loads_into_db_with_named_graphs", 1);
+                    }
+                    if r.loader.is_xml() && r.doc_quads.len() > 8192 {
+                        out.count("rdfxml_loads_crossing_the_8192_batch", 1);
+                    }
+                    if !prior.is_history() && x.before_quads != simple_prior_quads(prior, &lines) {
+                        out.machinery_errors.push(format!("{}: constructed prior is not what the store shows before the load: {:?}", case, x.before_quads));
+                        continue;
+                    }
+                }
+                let fails = judge(&run, &r.doc_quads);
+                if fails.is_empty() {
+                    if let Ok(x) = run {
+                        passed.push((r.loader, pool, x.after));
+                    }
+                    if out.samples.len() < 4 && spec.n >= 2 && spec.kind != Kind::None && prior != Prior::Empty {
+                        out.sample(json!({"case": case, "first_lines": r.text.lines().take(3).collect::<Vec<_>>(), "document_quads": r.doc_quads.len()}));
                     }
                     continue;
                 }
                 // determinism: re-execute from scratch before recording
-                let obs2 = execute(r.loader, &r.text, prior, &lines, pools.get(pool));
-                let mut tg = tags(n, kind, pos, prior, pool, r.loader, &lines);
-                if obs2 != obs {
+                let run2 = execute(r.loader, &r.text, prior, &lines, pools.get(pool));
+                let mut tg = tags(spec, prior, pool, r.loader, &lines);
+                if run2 != run {
                     // thread schedules are part of C13's quantifier: run-to-run variation of the loader on a
                     // fixed text and fixed prior content is itself a violation, recorded with its own tag
                     tg.push("rerun_differs".into());
                     out.count("rerun_differs", 1);
+                }
+                match mid_chunk_control(spec, r.loader, prior, pools.get(pool)) {
+                    Some(true) => {
+                        tg.push("mid_chunk_control=pass".into());
+                        out.count("failing_with_passing_mid_chunk_control", 1);
+                    }
+                    Some(false) => tg.push("mid_chunk_control=fail".into()),
+                    None => {}
                 }
                 for (symptom, detail) in fails {
                     out.count(&format!("failing.{}.{}", r.loader.name(), symptom), 1);
@@ -668,19 +954,22 @@ fn run_document(ctx: &Ctx, out: &mut ShardOut, pools: &Pools, n: usize, kind: Ki
                 continue;
             }
             out.count("cross_format_comparisons", 1);
+            if *l == Loader::Fmt(Format::N3) && !lines.iter().any(|x| matches!(x, Line::Triple { o: Term::Lit { .. }, .. })) {
+                out.count("cross_format_comparisons_n3_without_literal", 1);
+            }
             if o.quads != nt.quads {
                 let r = rendered.iter().find(|r| r.loader == *l).unwrap();
                 let ntr = rendered.iter().find(|r| r.loader == Loader::Fmt(Format::NTriples)).unwrap();
                 let again = execute(*l, &r.text, prior, &lines, pools.get(*pool));
                 let again_nt = execute(Loader::Fmt(Format::NTriples), &ntr.text, prior, &lines, pools.get(nt_pool));
-                let mut tg = tags(n, kind, pos, prior, *pool, *l, &lines);
-                if again.as_ref().ok() != Some(o) || again_nt.as_ref().ok() != Some(&nt) {
+                let mut tg = tags(spec, prior, *pool, *l, &lines);
+                if again.as_ref().ok().map(|x| &x.after) != Some(o) || again_nt.as_ref().ok().map(|x| &x.after) != Some(&nt) {
                     tg.push("rerun_differs".into());
                     out.count("rerun_differs", 1);
                 }
                 out.count(&format!("failing.{}.cross_format_differs", l.name()), 1);
                 let detail = format!("same abstract triples, {} vs ntriples: {}", l.name(), diff_detail(&o.quads, &nt.quads));
-                let case = case_json(n, kind, pos, prior, *pool, *l, true);
+                let case = case_json(spec, prior, *pool, *l, true);
                 dump_failure(&case, "cross_format_differs", &tg, &detail);
                 out.fail(case, "cross_format_differs", detail, tg);
             }
@@ -688,51 +977,78 @@ fn run_document(ctx: &Ctx, out: &mut ShardOut, pools: &Pools, n: usize, kind: Ki
     }
 }
 
+/// triage aid: VCHECK_C13_KINDS=Kind1,Kind2 restricts the enumeration to those kinds (the run is then reported as capped)
+fn kind_filter() -> Option<Vec<Kind>> {
+    let v = std::env::var("VCHECK_C13_KINDS").ok()?;
+    Some(v.split(',').filter_map(|s| Kind::parse(s.trim())).collect())
+}
+
 fn run(ctx: &Ctx) -> ShardOut {
     let mut out = ShardOut::default();
     let pools = Pools::new(&POOLS);
     let thorough = ctx.thorough();
-    let docs = documents(thorough);
-    out.count("documents_in_enumeration", if ctx.shard == 0 { docs.len() as u64 } else { 0 });
-    let mut done = 0u64;
-    for (i, (n, kind, pos)) in docs.iter().enumerate() {
-        if !ctx.mine(i as u64) {
-            continue;
-        }
-        if ctx.expired() {
-            out.capped.push(format!("wall-clock cap: shard {} completed {} of its documents (enumeration order: sizes ascending)", ctx.shard, done));
-            break;
-        }
-        let n = *n;
-        run_document(ctx, &mut out, &pools, n, *kind, *pos, &LOADERS, &priors_for(thorough, n), &|l| pool_sizes_for(thorough, n, l));
-        done += 1;
+    let filter = kind_filter();
+    if let Some(f) = &filter {
+        out.capped.push(format!("triage run: enumeration restricted to kinds {:?} by VCHECK_C13_KINDS", f));
     }
-    // RDF/XML batch boundary (8192 triples per batch sent to the worker threads): thorough only
+    let keep = |s: &Spec| filter.as_ref().map_or(true, |f| f.contains(&s.kind));
+    let mut idx = 0u64;
+
+    // part 1: RDF/XML batch boundary (8192 triples per batch shipped to the worker threads). First, because
+    // these are the longest single cases: the work is spread before the per-shard tails begin.
+    let mut xdocs: Vec<Spec> = Vec::new();
+    let plain = |n: usize, kind: Kind, pos: Option<usize>| Spec { n, kind, pos, layout: Layout::Plain };
     if thorough {
-        let mut idx = docs.len() as u64;
-        let mut xdocs: Vec<(usize, Kind, Option<usize>)> = Vec::new();
         for n in 8190..=8194usize {
-            xdocs.push((n, Kind::None, None));
-            for kind in [Kind::Duplicate, Kind::Comment, Kind::HashIri] {
+            xdocs.push(plain(n, Kind::None, None));
+            for kind in [Kind::Duplicate, Kind::Comment, Kind::HashIri, Kind::StraddleSemi] {
                 for pos in 8190..=8193usize {
-                    if pos < n {
-                        xdocs.push((n, kind, Some(pos)));
+                    if placeable(n, kind, pos) {
+                        xdocs.push(plain(n, kind, Some(pos)));
                     }
                 }
             }
         }
-        for (n, kind, pos) in xdocs {
-            idx += 1;
-            if !ctx.mine(idx) {
-                continue;
-            }
-            if ctx.expired() {
-                out.capped.push("wall-clock cap during the RDF/XML 8192 boundary part".into());
-                return out;
-            }
-            run_document(ctx, &mut out, &pools, n, kind, pos, &[Loader::Fmt(Format::NTriples), Loader::Fmt(Format::RdfXml)], &PRIORS, &|_| vec![2]);
-            out.count("rdfxml_8192_boundary_documents", 1);
+        xdocs.push(plain(16385, Kind::None, None));
+    } else {
+        xdocs.push(plain(8193, Kind::None, None));
+        xdocs.push(plain(8193, Kind::Duplicate, Some(8192)));
+    }
+    let xml_loaders = [Loader::Fmt(Format::NTriples), Loader::Fmt(Format::RdfXml), Loader::RdfXmlFile];
+    let xml_priors: Vec<Prior> = if thorough { SIMPLE_PRIORS.to_vec() } else { vec![Prior::Empty, Prior::SameTriple] };
+    for spec in xdocs.iter().filter(|s| keep(s)) {
+        idx += 1;
+        if !ctx.mine(idx) {
+            continue;
         }
+        if ctx.expired() {
+            out.capped.push("wall-clock cap during the RDF/XML 8192 boundary part".into());
+            return out;
+        }
+        run_document(ctx, &mut out, &pools, *spec, &xml_loaders, &xml_priors, &|_| vec![2]);
+        out.count("rdfxml_8192_boundary_documents", 1);
+    }
+
+    // part 2: the boundary documents, plain layout; part 3: the layout family
+    let docs = documents(thorough);
+    let ldocs = layout_documents(thorough);
+    out.count("documents_in_enumeration", if ctx.shard == 0 { (docs.len() + ldocs.len() + xdocs.len()) as u64 } else { 0 });
+    let mut done = 0u64;
+    for spec in docs.iter().chain(ldocs.iter()).filter(|s| keep(s)) {
+        idx += 1;
+        if !ctx.mine(idx) {
+            continue;
+        }
+        if ctx.expired() {
+            out.capped.push(format!("wall-clock cap: shard {} completed {} of its documents (enumeration order: RDF/XML batch documents, then sizes ascending, then the layout family)", ctx.shard, done));
+            break;
+        }
+        let spec = *spec;
+        run_document(ctx, &mut out, &pools, spec, &loaders_for(thorough, spec), &priors_for(thorough, spec), &|l| pool_sizes_for(thorough, spec, l));
+        if spec.layout != Layout::Plain {
+            out.count("layout_family_documents", 1);
+        }
+        done += 1;
     }
     out
 }
@@ -746,16 +1062,20 @@ fn replay(_ctx: &Ctx, case: &Value) -> ShardOut {
         let prior = Prior::parse(case["prior"].as_str()?)?;
         let pool = case["pool"].as_u64()? as usize;
         let loader = Loader::parse(case["format"].as_str()?)?;
-        Some((n, kind, pos, prior, pool, loader))
+        let layout = match case.get("layout").and_then(|v| v.as_str()) {
+            Some(s) => layout_parse(s)?,
+            None => Layout::Plain,
+        };
+        Some((Spec { n, kind, pos, layout }, prior, pool, loader))
     })();
-    let Some((n, kind, pos, prior, pool, loader)) = parsed else {
+    let Some((spec, prior, pool, loader)) = parsed else {
         out.machinery_errors.push(format!("unreadable C13 case {}", case));
         return out;
     };
     let pools = Pools::new(&[pool]);
     let cross = case.get("cross_with").is_some();
     let loaders: Vec<Loader> = if cross { vec![Loader::Fmt(Format::NTriples), loader] } else { vec![loader] };
-    run_document(&Ctx::for_replay(crate::infra::Tier::Quick), &mut out, &pools, n, kind, pos, &loaders, &[prior], &|_| vec![pool]);
+    run_document(&Ctx::for_replay(crate::infra::Tier::Quick), &mut out, &pools, spec, &loaders, &[prior], &|_| vec![pool]);
     // keep only what the recorded case is about
     out.failure_sigs.retain(|_, (_, f)| f.case["format"] == case["format"]);
     out
